@@ -35,6 +35,8 @@ class Job:
         self.optcov = [c for c in meta.get("optcov", "").split("|") if c]
         self.stubs = meta.get("stubbing", "0") == "1"
         self.extra = [a for a in meta.get("kani_args", "").split(",") if a]
+        # a documented panic that MUST be reported as failed check (e.g. chunk size zero)
+        self.expectpanic = meta.get("expectpanic", "").replace("_", " ")
 
     def serves(self, prop, tier):
         if prop in self.quick:
@@ -198,6 +200,7 @@ def classify(res, prop):
     checks = r.get("checks", [])
     out["checks"] = checks
     ncov_total = ncov_sat = 0
+    n_expected_panics = 0
     for c in checks:
         st, cat, desc = c.get("status"), c.get("category"), c.get("description", "")
         if cat == "cover":
@@ -216,6 +219,9 @@ def classify(res, prop):
             out["inconclusive"].append(f"{job.full}: check {c.get('id')} status {st}: {desc}")
             continue
         tg = tags_of(desc)
+        if job.expectpanic and job.expectpanic in desc and in_repo(c):
+            n_expected_panics += 1
+            continue
         if tg:
             (out["relevant"] if prop in tg else out["other_failed"]).append(c)
         elif cat == "unwind":
@@ -233,6 +239,10 @@ def classify(res, prop):
             out["needs_replay_only"].append(c)
         else:
             out["relevant"].append(c)
+    if job.expectpanic and n_expected_panics == 0:
+        out["relevant"].append({"description": f'"{prop}: the documented panic \'{job.expectpanic}\' is not raised any more"',
+                                "category": "assertion", "status": "Failure", "function": job.full,
+                                "location": {"file": "src/" + job.mod + ".rs", "line": str(job.src_line), "column": "1"}})
     if ncov_sat == 0 and not job.meta.get("nocover"):
         out["inconclusive"].append(f"{job.full}: no vacuity witness satisfied ({ncov_total} cover checks)")
     if r.get("status") not in ("Success", "Failure"):
